@@ -827,6 +827,92 @@ scenarios:
 	res.Eval(fmt.Sprint("next-shared", instances, shots), true)
 }
 
+// staleAcrossShots: what a step may use is what earlier steps of the same shot captured. Two
+// scenarios take turns on one instance: "full" logs in and then uses the token; "early" begins
+// with a step whose preprocessor asks for the login step's token although no login has happened
+// in that shot — it must fail before anything is sent, every time, however many tokens earlier
+// shots of the same instance have seen.
+func staleAcrossShots(res *vkit.Result, shots int) {
+	tgt, err := vkit.NewHTTPTarget(false)
+	if err != nil {
+		res.Inconclusive(true, "target: %v", err)
+		return
+	}
+	defer tgt.Close()
+	var mu sync.Mutex
+	var early []string
+	logins := 0
+	tgt.Respond = func(rq *vkit.ReqRec, rw http.ResponseWriter, r *http.Request) {
+		mu.Lock()
+		switch {
+		case strings.HasPrefix(r.URL.Path, "/login"):
+			logins++
+		case strings.HasPrefix(r.URL.Path, "/early"):
+			early = append(early, r.Header.Get("X-Tok"))
+		}
+		n := logins
+		mu.Unlock()
+		rw.Header().Set("Content-Type", "application/json")
+		fmt.Fprintf(rw, `{"tok":"tok-%d"}`, n)
+	}
+	base := fmt.Sprintf("/c15/stale-%d", shots)
+	yaml := `requests:
+  - name: "login"
+    method: "POST"
+    uri: "/login"
+    headers: {}
+    postprocessors:
+      - type: "var/jsonpath"
+        mapping: {"tok": "$.tok"}
+  - name: "use"
+    method: "POST"
+    uri: "/use"
+    headers: {"X-Tok": "{{.request.login.postprocessor.tok}}"}
+  - name: "early"
+    method: "POST"
+    uri: "/early"
+    headers: {"X-Tok": "{{.request.early.preprocessor.t}}"}
+    preprocessor:
+      mapping: {"t": "request.login.postprocessor.tok"}
+scenarios:
+  - name: "full"
+    weight: 1
+    min_waiting_time: 0
+    requests: ["login", "use"]
+  - name: "early"
+    weight: 1
+    min_waiting_time: 0
+    requests: ["early", "login"]
+`
+	_ = vkit.WriteMemAt(base+".yaml", []byte(yaml))
+	defer vkit.RemoveMem(base + ".yaml")
+	pool := map[string]any{"id": "p", "ammo": map[string]any{"type": "http/scenario", "file": base + ".yaml", "limit": shots},
+		"result": map[string]any{"type": "discard"}, "gun": map[string]any{"type": "http/scenario", "target": tgt.Addr},
+		"rps": map[string]any{"type": "const", "ops": 5000, "duration": "300s"}, "startup": map[string]any{"type": "once", "times": 1}}
+	cs := map[string]any{"layer": "a step asks for a value that only a later step of its shot captures", "instances": 1, "shots": shots}
+	ec, err := vkit.DecodePools(map[string]any{"pools": []any{pool}})
+	if err != nil {
+		res.Violate("C15/stale/valid-description-rejected", fmt.Sprintf("description rejected: %v", err), cs)
+		return
+	}
+	ec.Pools[0].Aggregator = &vkit.MockAggregator{}
+	rr := vkit.RunEngine(ec, nil, 120*time.Second)
+	if rr.Hang || rr.Err != nil {
+		res.Violate("C15/stale/run", fmt.Sprintf("run failed: %v hang=%v", rr.Err, rr.Hang), cs)
+		return
+	}
+	mu.Lock()
+	defer mu.Unlock()
+	if len(early) > 0 {
+		res.Violate("C15/stale/value-of-an-earlier-shot", fmt.Sprintf("the step \"early\" was sent %d times (with X-Tok %q …) although the login step it takes its token from had not run in those shots: the token is one an earlier shot of the same instance captured", len(early), early[0]), cs)
+	}
+	if logins < shots/2 {
+		res.Inconclusive(false, "stale-values probe: only %d logins in %d shots", logins, shots)
+	}
+	res.Count("stale_probe_shots", int64(shots))
+	res.Eval(fmt.Sprint("stale", shots), true)
+}
+
 func nextFirstAccess(res *vkit.Result, rounds int) {
 	_ = vkit.WriteMemAt("/c15/next.csv", []byte("0,a\n1,b\n2,c\n3,d\n4,e\n5,f\n6,g\n7,h\n8,i\n9,j\n"))
 	yaml := `variable_sources:
@@ -1088,6 +1174,7 @@ func main() {
 	}
 	nextSharedBySteps(res, 1, 12)
 	nextSharedBySteps(res, 4, vkit.N(40, 400))
+	staleAcrossShots(res, 12)
 	plainSteps(res, 1, 20)
 	plainSteps(res, 4, vkit.N(40, 400))
 	nextFirstAccess(res, vkit.N(2500, 40000))
